@@ -463,7 +463,19 @@ class Misc(object):
                         if L > 8193 and v in ("p", "v", "w", "m1", "m2", "big", "small"):
                             continue
                         out.append(("misc", "strxor", L, v, pl))
+            # every alignment (address mod 8) of the two inputs and of the output, every short length: word-at-a-time code has an
+            # alignment prologue and a tail, and all three buffers sit between canaries
+            for L in range(0, 25):
+                for ai in range(8):
+                    for bi in range(8):
+                        for oi in range(8):
+                            out.append(("misc", "strxor", L, "al", (ai, bi, oi)))
         elif part == "strxor_c":
+            for L in range(0, 25):
+                for ai in range(8):
+                    for oi in range(8):
+                        for c in (0, 0xA5):
+                            out.append(("misc", "strxor_c", L, "al", c, (ai, oi)))
             for L in lens_for(tier, 16, big=True):
                 for pl in pls(L):
                     for v in ("r", "o", "p", "a", "v", "w", "big", "small"):
@@ -591,6 +603,13 @@ class Misc(object):
         if kind == "strxor":
             _, _, L, v, pl = case
             from Crypto.Util.strxor import strxor
+            if v == "al":
+                ai, bi, oi = pl
+                a = S.IN.view(L, "S", data(L), shift=ai)
+                b = S.A.view(L, "S", data(L, 3000), shift=bi)
+                o = S.OUT.view(L, "S", shift=oi)
+                strxor(a, b, output=o)
+                return "ok" if bytes(o) == bytes(x ^ y for x, y in zip(data(L), data(L, 3000))) else "wrong-value"
             b = S.A.view(L, pl, data(L, 3000))
             if v in ("v", "w"):
                 iv, ov = C.io_views(L, pl, v, 16)
@@ -626,6 +645,12 @@ class Misc(object):
         if kind == "strxor_c":
             _, _, L, v, c, pl = case
             from Crypto.Util.strxor import strxor_c
+            if v == "al":
+                ai, oi = pl
+                a = S.IN.view(L, "S", data(L), shift=ai)
+                o = S.OUT.view(L, "S", shift=oi)
+                strxor_c(a, c, output=o)
+                return "ok" if bytes(o) == bytes(x ^ c for x in data(L)) else "wrong-value"
             if v in ("v", "w"):
                 iv, ov = C.io_views(L, pl, v, 16)
                 strxor_c(iv, c, output=ov)
